@@ -425,7 +425,11 @@ def _extent_rule(ctx, res) -> None:
         if f.unit.modname != "rope.base.pyscopes":
             continue
         cfg = None
-        for x in walk_local(f.node):
+        if f.parent is not None:
+            continue
+        # (generator conditions and the lambda handed to itertools.takewhile are read as well: `next((s for s in takewhile(lambda s:
+        # s.get_start() <= line, scopes) if line <= s.get_end()), None)` is the same search)
+        for x in ast.walk(f.node):
             if not (isinstance(x, ast.Compare) and len(x.ops) == 1 and isinstance(x.ops[0], (ast.LtE, ast.Lt))):
                 continue
             up = x.comparators[0]
@@ -442,6 +446,15 @@ def _extent_rule(ctx, res) -> None:
                         lrecv = lo.func.value if isinstance(lo, ast.Call) and isinstance(lo.func, ast.Attribute) else (lo.value if isinstance(lo, ast.Attribute) else None)
                         lwhat = lo.func.attr if isinstance(lo, ast.Call) and isinstance(lo.func, ast.Attribute) else (lo.attr if isinstance(lo, ast.Attribute) else None)
                         if lrecv is not None and norm(lrecv) == norm(recv) and lwhat in ("get_start", "start"):
+                            lower = True
+            if not lower:
+                # not a guard of the statement (the lower bound stands in another expression of the search): the same line compared
+                # with a start in this function
+                for t in ast.walk(f.node):
+                    if isinstance(t, ast.Compare) and len(t.ops) == 1 and isinstance(t.ops[0], (ast.LtE, ast.Lt)) and norm(t.comparators[0]) == norm(x.left) and t is not x:
+                        lo = t.left
+                        lwhat = lo.func.attr if isinstance(lo, ast.Call) and isinstance(lo.func, ast.Attribute) else (lo.attr if isinstance(lo, ast.Attribute) else None)
+                        if lwhat in ("get_start", "start"):
                             lower = True
             if not lower:
                 continue
@@ -535,7 +548,12 @@ def sibling_search_rule(ctx, res, rule: str) -> None:
                    for t in x.targets if isinstance(t, ast.Name)}
     loops = [l for l in walk_local(f.node) if isinstance(l, ast.For) and (
         (isinstance(l.iter, ast.Call) and call_name(l.iter) == "get_scopes") or (isinstance(l.iter, ast.Name) and l.iter.id in scope_lists))]
-    if not loops:
+    # the same search written as `next((c for c in scope.get_scopes() if c.in_region(offset)), None)`: it stops at the first child
+    # for which the conditions hold -- they are the "found" test; a `takewhile` around the children is an early stop on a position test
+    gens = [g for c in ast.walk(f.node) if isinstance(c, ast.Call) and call_name(c) == "next" and c.args and isinstance(c.args[0], ast.GeneratorExp)
+            for g in [c.args[0]] if len(g.generators) == 1 and any(
+                (isinstance(y, ast.Call) and call_name(y) == "get_scopes") or (isinstance(y, ast.Name) and y.id in scope_lists) for y in ast.walk(g.generators[0].iter))]
+    if not loops and not gens:
         raise AnalysisError("anchor=get_holding_scope_for_offset: loop over the child scopes not found")
 
     def contains(gs) -> bool:
@@ -572,6 +590,16 @@ def sibling_search_rule(ctx, res, rule: str) -> None:
                     "children are sorted by position.  They are in ast field order: in `A(x for x in p) if B(y for y in q) else 0` the scope of the test comes "
                     "first, an offset inside the body's comprehension is smaller than that sibling's start, and the position is attributed to the ENCLOSING "
                     "scope (its loop variable resolves to an outer name)", function=f.qualname)
+    for g in gens:
+        n += 1
+        comp = g.generators[0]
+        cut_short = any(isinstance(y, ast.Call) and call_name(y) in ("takewhile", "islice") for y in ast.walk(comp.iter))
+        ok = contains([(t, True) for t in comp.ifs]) and not cut_short
+        res.add(rule, f"get_holding_scope_for_offset|early-exit#{n}", ok, f"{f.unit.rel}:{g.lineno}",
+                "the search over the siblings stops at the first child that contains the offset" if ok else
+                f"`{ast.unparse(g)[:80]}` ends the search over the child scopes " + ("at a sibling chosen by position (takewhile / islice)" if cut_short else "at a child that was not tested to contain the offset")
+                + ": the children are in ast field order, not in source order -- in `A(x for x in p) if B(y for y in q) else 0` the scope of the test comes first, and a position "
+                "inside the body's comprehension is attributed to the enclosing scope", function=f.qualname)
     res.floor(rule, "early exits of the sibling search", n, 1)
 
 
